@@ -952,6 +952,8 @@ class Lower:
                 return self.ex(a0)
             if name == 'operator*':
                 return '(*%s)' % self.ex(a0)
+            if name == 'operator=':
+                return '%s = %s' % (self.ex(a0), self.ex(args[1]))
             raise LowerError('iterator ' + name)
         if cls == 'uptr':
             if name == 'operator->':
